@@ -45,6 +45,21 @@ CHECKS = {
          "Results, observable fingerprints and database dumps of the two replicas are compared on every edge and pair state.",
          "The never-restarted replica is forked by creating a fresh database in-process and copying rows (connection state of a never-reopened database); call-level side effects on the connection are not carried across forks.",
          "3/C11"),
+ "C04": ("E1 lab + adversary toolkit", "model_checking",
+         "exhaustive product enumeration on real clients: forged rumor fields x sender role x receiver base state, plus every captured ciphertext re-wrapped (same / foreign h tag, both orders); each case is one delivery to a forked receiver state, judged by a before/after comparison of every stored message",
+         "The complete finite product of the stated field domains is delivered to every base state; every stored message is re-hashed and compared with the authenticated sender.",
+         "Field domains are small representative sets (3 pubkeys, 6 id modes, 4 kinds, 2 tag sets, 3 timestamps); base states are scripted, not searched.",
+         "3/C04"),
+ "C05": ("E1 lab + adversary toolkit", "model_checking",
+         "exhaustive product enumeration on real clients: sender role x commit content built directly with the OpenMLS commit builder x queued foreign proposal x receiver role x base state; every stand-alone proposal kind; every foreign proposal kind queued at an honest admin x every admin operation",
+         "Verdict (accept/refuse) and roster/data delta of every case are compared with what the scenario defines; refusals must leave the fingerprint unchanged.",
+         "PSK commits are not buildable through the public API and are not covered; outsider commits are covered by C06 (garbage) only.",
+         "3/C05"),
+ "C16": ("E1 mdkx + adversary toolkit", "model_checking",
+         "explicit-state BFS of the recipient's graph with process/accept/decline of every invitation (original, replayed under a new wrapper id, attacker-made group reusing the MLS group id, attacker group claiming the real Nostr group id) enabled in every state, for recipients that are not members, pending, active, evicted",
+         "Idempotence, consent-gating, joiner == inviter state and non-interference with existing groups are checked on every edge; later events are compared differentially with and without the invitation.",
+         "Quick tier offers accept/decline only while the stored welcome is pending and caps graphs at 3000 states; thorough lifts both.",
+         "3/C16"),
 }
 
 PENDING_REASON = "check not built yet in this revision (see DESIGN.md section 7 build order); will be claimed when its engine lands"
